@@ -8755,12 +8755,22 @@ func (p *parser) findSymbol(loc logger.Loc, name string) findSymbolResult {
 	// property on the target object of the "with" statement. We must not rename
 	// it or we risk changing the behavior of the code.
 	if isInsideWithScope {
-		p.symbols[ref.InnerIndex].Flags |= ast.MustNotBeRenamed
+		p.symbols[p.followSymbolLinks(ref).InnerIndex].Flags |= ast.MustNotBeRenamed
 	}
 
 	// Track how many times we've referenced this symbol
 	p.recordUsage(ref)
 	return findSymbolResult{ref, declareLoc, isInsideWithScope}
+}
+
+// Hoisting may have merged a symbol into another one (e.g. "var x; { var x }").
+// The renamers only look at the flags of the symbol at the end of the link
+// chain, so flags that affect renaming must be set on that symbol.
+func (p *parser) followSymbolLinks(ref ast.Ref) ast.Ref {
+	for p.symbols[ref.InnerIndex].Link != ast.InvalidRef {
+		ref = p.symbols[ref.InnerIndex].Link
+	}
+	return ref
 }
 
 func (p *parser) findLabelSymbol(loc logger.Loc, name string) (ref ast.Ref, isLoop bool, ok bool) {
@@ -13912,10 +13922,10 @@ func (p *parser) visitExprInOut(expr js_ast.Expr, in exprIn) (js_ast.Expr, exprO
 			// If the tag is an identifier, mark it as needing to be upper-case
 			switch tag := e.TagOrNil.Data.(type) {
 			case *js_ast.EIdentifier:
-				p.symbols[tag.Ref.InnerIndex].Flags |= ast.MustStartWithCapitalLetterForJSX
+				p.symbols[p.followSymbolLinks(tag.Ref).InnerIndex].Flags |= ast.MustStartWithCapitalLetterForJSX
 
 			case *js_ast.EImportIdentifier:
-				p.symbols[tag.Ref.InnerIndex].Flags |= ast.MustStartWithCapitalLetterForJSX
+				p.symbols[p.followSymbolLinks(tag.Ref).InnerIndex].Flags |= ast.MustStartWithCapitalLetterForJSX
 			}
 		} else {
 			// Remove any nil children in the array (in place) before iterating over it
